@@ -238,6 +238,7 @@ static void cmp_seq(Ctx &cx, char const *what, std::vector<N *> const &got, std:
 #define UPOST_FOREACH(cur, r) A_RBT_POST_FOREACH(cur, r)
 #define UPOST_FOREACH_R(cur, r) A_RBT_POST_FOREACH_REVERSE(cur, r)
 #define FORTEAR(cur, next, r) A_RBT_FORTEAR(cur, next, r)
+#define LFORTEAR(cur, next, r) a_rbt_fortear(cur, next, r)
 #else
 #define FOREACH(cur, r) a_avl_foreach(cur, r)
 #define FOREACH_R(cur, r) a_avl_foreach_reverse(cur, r)
@@ -252,6 +253,7 @@ static void cmp_seq(Ctx &cx, char const *what, std::vector<N *> const &got, std:
 #define UPOST_FOREACH(cur, r) A_AVL_POST_FOREACH(cur, r)
 #define UPOST_FOREACH_R(cur, r) A_AVL_POST_FOREACH_REVERSE(cur, r)
 #define FORTEAR(cur, next, r) A_AVL_FORTEAR(cur, next, r)
+#define LFORTEAR(cur, next, r) a_avl_fortear(cur, next, r)
 #endif
 
 #define COLLECT(MACRO, vec, lim)                                          \
@@ -368,8 +370,9 @@ static void tear_down(Ctx &cx, Tree &t, size_t j, int mode, bool do_free, long s
     };
     if (mode == 2)
     {
-        N *cur, *next;
-        FORTEAR(cur, next, root) { handed(cur); }
+        // both spellings of the macro (loop variables of the caller / declared by the macro)
+        if (j & 1) { N *cur, *next; FORTEAR(cur, next, root) { handed(cur); } }
+        else { LFORTEAR(cur, next, root) { handed(cur); } }
     }
     else
     {
